@@ -4,6 +4,7 @@ package weshnet
 
 import (
 	"bytes"
+	"errors"
 	"fmt"
 	"strings"
 	"testing"
@@ -88,6 +89,9 @@ func c13CheckCube(list c13Lister, order []cid.Cid, what string, count func(nontr
 					return "listing-panicked", fmt.Sprintf("%s since=%s until=%s reverse=%v on %d entries: panic: %v", what, s.name, u.name, rev, n, pan)
 				}
 				desc := fmt.Sprintf("%s since=%s until=%s reverse=%v on %d entries", what, s.name, u.name, rev, n)
+				if errors.Is(err, errC13Harness) {
+					return "harness", desc + ": " + err.Error()
+				}
 				wantErr := s.idx == -2 || u.idx == -2
 				lo, hi := 0, n-1
 				if s.idx >= 0 {
